@@ -43,6 +43,8 @@ pub struct SStep {
     pub name: String, // operator or macro name
     pub args: Vec<(String, Bind)>,
     pub inv: u8, // 0 none, 1 suffix, 2 prefix, 3 infix
+    /// directional modifier of the step: 0 none, 1 omit_fwd, 2 omit_inv
+    pub omit: u8,
 }
 
 impl SStep {
@@ -51,6 +53,7 @@ impl SStep {
             name: name.to_string(),
             args: args.iter().map(|(k, b)| (k.to_string(), b.clone())).collect(),
             inv: 0,
+            omit: 0,
         }
     }
     pub fn text(&self) -> String {
@@ -68,6 +71,11 @@ impl SStep {
         if self.inv == 1 {
             parts.push("inv".into());
         }
+        match self.omit {
+            1 => parts.push("omit_fwd".into()),
+            2 => parts.push("omit_inv".into()),
+            _ => {}
+        }
         parts.join(" ")
     }
 }
@@ -82,7 +90,7 @@ pub fn body_text(b: &Body) -> String {
 #[derive(Clone, Debug)]
 pub enum Node {
     Elem(String),
-    Pipe(Vec<(Node, bool)>), // (node, inverted)
+    Pipe(Vec<(Node, bool, u8)>), // (node, inverted, omitted: 0 never, 1 forward, 2 inverse)
 }
 
 type Env = BTreeMap<String, String>;
@@ -97,7 +105,7 @@ fn resolve(key: &str, b: &Bind, env: &Env) -> Result<String, String> {
 }
 
 /// Expand one step under environment `env` (the caller's arguments, visible to every step)
-pub fn expand_step(macros: &BTreeMap<String, Body>, st: &SStep, env: &Env, depth: usize) -> Result<(Node, bool), String> {
+pub fn expand_step(macros: &BTreeMap<String, Body>, st: &SStep, env: &Env, depth: usize) -> Result<(Node, bool, u8), String> {
     if depth > 200 {
         return Err("cycle".into());
     }
@@ -110,7 +118,7 @@ pub fn expand_step(macros: &BTreeMap<String, Body>, st: &SStep, env: &Env, depth
         let mut inner = env.clone();
         inner.extend(local);
         let node = expand_body(macros, body, &inner, depth + 1)?;
-        return Ok((node, st.inv != 0));
+        return Ok((node, st.inv != 0, st.omit));
     }
     // elementary: caller arguments are visible, step-local values win
     let mut all = env.clone();
@@ -119,13 +127,13 @@ pub fn expand_step(macros: &BTreeMap<String, Body>, st: &SStep, env: &Env, depth
     for (k, v) in &all {
         text.push_str(&format!(" {k}={v}"));
     }
-    Ok((Node::Elem(text), st.inv != 0))
+    Ok((Node::Elem(text), st.inv != 0, st.omit))
 }
 
 pub fn expand_body(macros: &BTreeMap<String, Body>, body: &Body, env: &Env, depth: usize) -> Result<Node, String> {
     if body.len() == 1 {
-        let (node, inv) = expand_step(macros, &body[0], env, depth)?;
-        return Ok(Node::Pipe(vec![(node, inv)]));
+        // (a single-step body is that step, its directional modifier included)
+        return Ok(Node::Pipe(vec![expand_step(macros, &body[0], env, depth)?]));
     }
     let mut steps = Vec::new();
     for st in body {
@@ -158,7 +166,7 @@ impl Executor {
     pub fn prepare(&mut self, node: &Node) -> bool {
         match node {
             Node::Elem(t) => self.handle(t).is_some(),
-            Node::Pipe(steps) => steps.iter().all(|(n, _)| self.prepare(n)),
+            Node::Pipe(steps) => steps.iter().all(|(n, _, _)| self.prepare(n)),
         }
     }
     pub fn exec(&mut self, node: &Node, fwd: bool, data: &mut Vec<Coor4D>) -> usize {
@@ -169,8 +177,11 @@ impl Executor {
             }
             Node::Pipe(steps) => {
                 let mut n = usize::MAX;
-                let order: Vec<&(Node, bool)> = if fwd { steps.iter().collect() } else { steps.iter().rev().collect() };
-                for (node, inv) in order {
+                let order: Vec<&(Node, bool, u8)> = if fwd { steps.iter().collect() } else { steps.iter().rev().collect() };
+                for (node, inv, omit) in order {
+                    if (fwd && *omit == 1) || (!fwd && *omit == 2) {
+                        continue;
+                    }
                     n = n.min(self.exec(node, fwd != *inv, data));
                 }
                 if n == usize::MAX {
@@ -268,7 +279,7 @@ pub fn check_case(ex: &mut Executor, case: &Case) -> Result<u64, (String, Value)
 fn binding_cases() -> Vec<(String, Case)> {
     let names = ["a", "m", "x", "z", "d₁"]; // (a subscript digit is an index: d₁ is d_1, as a key and when looked up)
     let mut out = Vec::new();
-    for body_shape in 0..3 {
+    for body_shape in 0..5 {
         for n in names {
             let forms: Vec<Option<Bind>> = vec![
                 None,
@@ -289,6 +300,12 @@ fn binding_cases() -> Vec<(String, Case)> {
                             let h = SStep::new("helmert", &hargs);
                             let body: Body = match body_shape {
                                 0 => vec![h],
+                                // a single-step body left out in one direction: under an inverted invocation that is the other one
+                                3 | 4 => {
+                                    let mut h3 = h.clone();
+                                    h3.omit = body_shape as u8 - 2;
+                                    vec![h3]
+                                }
                                 1 => vec![SStep::new("addone", &[]), h, SStep::new("addone", &[])],
                                 _ => {
                                     // a second key bound to a literal in the same step, and a second step using the same name
@@ -312,7 +329,7 @@ fn binding_cases() -> Vec<(String, Case)> {
                             if n == "x" && subset & 2 != 0 && subset & 1 == 0 {
                                 continue; // duplicate of the subset with bit 0
                             }
-                            let mut call = SStep { name: "m:x".into(), args: cargs, inv };
+                            let mut call = SStep { name: "m:x".into(), args: cargs, inv, omit: 0 };
                             if inv == 3 && call.args.is_empty() {
                                 call.inv = 1; // infix == suffix without arguments
                                 if inv == 3 {
@@ -397,7 +414,7 @@ fn sibling_cases() -> Vec<(String, Case)> {
                                 }
                                 SStep::new("i:pq", &args)
                             } else {
-                                SStep { name: "m:x".into(), args: cargs, inv: 0 }
+                                SStep { name: "m:x".into(), args: cargs, inv: 0, omit: 0 }
                             };
                             let top: Body = if as_step { vec![SStep::new("addone", &[]), call] } else { vec![call] };
                             let cross = matches!((i1, i2), (2, _) | (5, _) | (_, 1) | (_, 4));
